@@ -2,6 +2,7 @@ package main
 
 import (
 	"fmt"
+	"go/constant"
 	"go/token"
 	"go/types"
 	"os"
@@ -243,6 +244,8 @@ func runC12(c *Ctx) {
 	c.Doc("R12.6", "no explicit panic and no unguarded constant-index access reachable from query.Parse")
 	checkCompileMatcher(c)
 	checkMatch(c)
+	checkLexerAutomaton(c)
+	checkTokenize(c)
 	checkFoldIs(c, w.Method("cache", "Matcher", "orMatch"), "cache.Matcher.orMatch", true)
 	checkFoldIs(c, w.Method("cache", "Matcher", "andMatch"), "cache.Matcher.andMatch", false)
 	checkParserTables(c)
@@ -965,5 +968,574 @@ func checkCaseInsensitive(c *Ctx) {
 			}
 		}
 		c.Check(ok, "R12.5", "cache.TitleFilter:lowered", w.FnPos(tf), "title and query are both lower-cased", "title matching is not case-insensitive on both sides")
+	}
+}
+
+// ---- R12.7: the lexer's quote automaton ----
+
+// checkLexerAutomaton extracts the transition table of splitFunc's rune classifier by case
+// analysis over rune classes and captured state, and compares it, as an automaton (product
+// construction from the initial state), with the documented quoting rule: a quote opens a
+// quoted section that only the SAME quote closes; inside, everything (separators and the other
+// quote included) belongs to the chunk; outside, separators delimit; input ending inside a
+// quoted section is an error.
+func checkLexerAutomaton(c *Ctx) {
+	w := c.W
+	c.Doc("R12.7", "query.splitFunc: the rune classifier closure, evaluated for every (captured state, rune class ∈ {\", ', separator, NUL, other}) reachable from the initial state, is observationally equal to the reference quote automaton (chunk membership per rune, in-quote flag tested at end of input → error); runes the classifier accepts are written to the current chunk, a rejected rune flushes a non-empty chunk, the last chunk is flushed at the end")
+	sf := w.Func("query", "splitFunc")
+	if sf == nil {
+		c.Undecided("R12.7", "anchor:query.splitFunc", "query", "not found")
+		return
+	}
+	c.seeFn(funcName(sf))
+	pos := w.FnPos(sf)
+	// the classifier: the closure whose result guards Builder.WriteRune
+	var clos *ssa.MakeClosure
+	var classCall *ssa.Call
+	var write *ssa.Call
+	for _, cl := range Calls(sf) {
+		if cl.Name != "strings.Builder.WriteRune" {
+			continue
+		}
+		write, _ = cl.Instr.(*ssa.Call)
+		for _, cc := range controlConds(cl.Block(), nil) {
+			if cv, isCall := cc.If.Cond.(*ssa.Call); isCall && cc.Edge == 0 {
+				if mc, isMC := cv.Common().Value.(*ssa.MakeClosure); isMC {
+					clos, classCall = mc, cv
+				}
+			}
+		}
+	}
+	if clos == nil {
+		c.Undecided("R12.7", "splitFunc:classifier", pos, "no closure call guarding the write into the chunk found")
+		return
+	}
+	cfn := clos.Fn.(*ssa.Function)
+	// written rune = classified rune
+	c.Check(len(write.Common().Args) == 2 && len(classCall.Common().Args) == 1 && write.Common().Args[1] == classCall.Common().Args[0],
+		"R12.7", "splitFunc:accepted-rune-written", w.InstrPos(write), "the rune written is the rune classified", "the rune written to the chunk is not the rune that was classified")
+	// initial cells
+	sepParam := ssa.Value(nil)
+	for _, p := range sf.Params {
+		if _, isSig := p.Type().Underlying().(*types.Signature); isSig {
+			sepParam = p
+		}
+	}
+	const (
+		rDQ  = int64('"')
+		rSQ  = int64('\'')
+		rSEP = int64(-1)
+		rOTH = int64(-2)
+		rNUL = int64(0)
+	)
+	sepOracle := fval{k: fFunc, fn: func(a []fval) (fval, error) {
+		if len(a) != 1 || a[0].k != fInt {
+			return fval{}, fmt.Errorf("separator predicate called with unexpected arguments")
+		}
+		return fval{k: fBool, b: a[0].i == rSEP}, nil
+	}}
+	init := map[int]fval{}
+	cellAlloc := map[int]*ssa.Alloc{}
+	for i, bnd := range clos.Bindings {
+		al, isAl := bnd.(*ssa.Alloc)
+		if !isAl {
+			c.Undecided("R12.7", "splitFunc:classifier", pos, "captured variable is not a local")
+			return
+		}
+		cellAlloc[i] = al
+		found := false
+		for _, r := range *al.Referrers() {
+			st, isSt := r.(*ssa.Store)
+			if !isSt || st.Addr != ssa.Value(al) || st.Block() != sf.Blocks[0] {
+				continue
+			}
+			if st.Val == sepParam {
+				init[i] = sepOracle
+				found = true
+			} else if k, isK := st.Val.(*ssa.Const); isK {
+				if v, err := constVal(k); err == nil {
+					init[i] = v
+					found = true
+				}
+			}
+		}
+		if !found {
+			c.Undecided("R12.7", "splitFunc:classifier", pos, "no constant initial value for captured variable "+al.Comment)
+			return
+		}
+	}
+	// the in-quote flag: the captured bool tested after the loop with a failing true edge
+	flagCell := -1
+	for _, b := range sf.Blocks {
+		if len(b.Instrs) == 0 {
+			continue
+		}
+		iff, isIf := b.Instrs[len(b.Instrs)-1].(*ssa.If)
+		if !isIf {
+			continue
+		}
+		ld, isLd := iff.Cond.(*ssa.UnOp)
+		if !isLd || ld.Op != token.MUL {
+			continue
+		}
+		for i, al := range cellAlloc {
+			if ld.X == ssa.Value(al) && strictlyFails(b.Succs[0], defaultFail) && enclosingLoopHeader(b) == nil {
+				flagCell = i
+			}
+		}
+	}
+	if flagCell < 0 {
+		c.Violate("R12.7", "splitFunc:unmatched-quote-refused", pos, "input that ends inside a quoted section is not refused with an error")
+		return
+	}
+	c.Hold("R12.7", "splitFunc:unmatched-quote-refused", pos, "the in-quote flag is tested after the scan and fails")
+	// product exploration
+	type refState int // 0 OUT, 1 IN ", 2 IN '
+	refStep := func(s refState, r int64) (refState, bool) {
+		switch s {
+		case 0:
+			switch r {
+			case rDQ:
+				return 1, true
+			case rSQ:
+				return 2, true
+			case rSEP:
+				return 0, false
+			}
+			return 0, true
+		case 1:
+			if r == rDQ {
+				return 0, true
+			}
+			return 1, true
+		default:
+			if r == rSQ {
+				return 0, true
+			}
+			return 2, true
+		}
+	}
+	className := map[int64]string{rDQ: `"`, rSQ: `'`, rSEP: "separator", rOTH: "other rune", rNUL: "NUL"}
+	// every constant the classifier compares runes with is an input class of its own
+	classes := []int64{rDQ, rSQ, rSEP, rOTH, rNUL}
+	for _, k := range comparedConsts(cfn, 0) {
+		if _, known := className[k]; !known {
+			className[k] = fmt.Sprintf("%q", rune(k))
+			classes = append(classes, k)
+		}
+	}
+	stateName := []string{"outside quotes", `inside "…`, `inside '…`}
+	keyOf := func(cells map[int]fval) string {
+		s := ""
+		for i := 0; i < len(clos.Bindings); i++ {
+			if cells[i].k != fFunc {
+				s += cells[i].String() + ","
+			}
+		}
+		return s
+	}
+	type pair struct {
+		cells map[int]fval
+		ref   refState
+		trace string
+	}
+	seen := map[string]bool{}
+	queue := []pair{{init, 0, ""}}
+	nTrans := 0
+	bad := ""
+	for len(queue) > 0 && bad == "" {
+		p := queue[0]
+		queue = queue[1:]
+		k := fmt.Sprintf("%s|%d", keyOf(p.cells), p.ref)
+		if seen[k] {
+			continue
+		}
+		seen[k] = true
+		if p.cells[flagCell].b != (p.ref != 0) {
+			bad = fmt.Sprintf("after the input %s the lexer's in-quote flag is %v but the input is %s: %s", showTrace(p.trace), p.cells[flagCell].b, stateName[p.ref],
+				map[bool]string{true: "a complete query is refused as 'unmatched quote'", false: "an unterminated quote is accepted"}[p.cells[flagCell].b])
+			break
+		}
+		for _, r := range classes {
+			env := &fenv{cells: map[int]*fval{}}
+			for i, v := range p.cells {
+				vv := v
+				env.cells[i] = &vv
+			}
+			out, err := env.run(cfn, []fval{{k: fInt, i: r}}, 0)
+			nTrans++
+			c.Sites++
+			if err != nil || len(out) != 1 {
+				c.Undecided("R12.7", "splitFunc:quote-automaton", w.FnPos(cfn), fmt.Sprintf("the classifier cannot be tabulated: %v", err))
+				return
+			}
+			ns, chunk := refStep(p.ref, r)
+			tr := p.trace + " " + className[r]
+			if out[0].b != chunk {
+				bad = fmt.Sprintf("after the input %s, %s, the rune %s is %s; the quoting rule says it %s", showTrace(p.trace), stateName[p.ref], className[r],
+					map[bool]string{true: "kept in the chunk", false: "treated as a delimiter"}[out[0].b], map[bool]string{true: "belongs to the chunk", false: "delimits"}[chunk])
+				break
+			}
+			nc := map[int]fval{}
+			for i, cv := range env.cells {
+				nc[i] = *cv
+			}
+			queue = append(queue, pair{nc, ns, tr})
+		}
+	}
+	if bad != "" {
+		c.Violate("R12.7", "splitFunc:quote-automaton", w.FnPos(cfn), bad)
+	} else {
+		c.Hold("R12.7", "splitFunc:quote-automaton", w.FnPos(cfn), fmt.Sprintf("%d reachable (lexer state, reference state) pairs, %d transitions tabulated, all agree", len(seen), nTrans))
+	}
+	// flush discipline
+	okFlush, okLast := false, false
+	for _, cl := range Calls(sf) {
+		if cl.Name != "builtin.append" {
+			continue
+		}
+		fromBuilder := false
+		for _, v := range appendedValues(cl.Value()) {
+			if sc, isCall := v.(*ssa.Call); isCall {
+				if n, _ := callName(sc.Common()); n == "strings.Builder.String" && sc.Block() == cl.Block() {
+					fromBuilder = true
+				}
+			}
+		}
+		if !fromBuilder {
+			continue
+		}
+		lenGuard, rejected := false, false
+		for _, cc := range controlConds(cl.Block(), nil) {
+			if bo, isBo := cc.If.Cond.(*ssa.BinOp); isBo {
+				if lc, isCall := bo.X.(*ssa.Call); isCall {
+					if n, _ := callName(lc.Common()); n == "strings.Builder.Len" {
+						k, isK := constInt(bo.Y)
+						if isK && ((bo.Op == token.GTR && k == 0 && cc.Edge == 0) || (bo.Op == token.NEQ && k == 0 && cc.Edge == 0) || (bo.Op == token.EQL && k == 0 && cc.Edge == 1)) {
+							lenGuard = true
+						}
+					}
+				}
+			}
+			if cc.If.Cond == ssa.Value(classCall) && cc.Edge == 1 {
+				rejected = true
+			}
+		}
+		if enclosingLoopHeader(cl.Block()) != nil {
+			reset := false
+			for _, ins := range cl.Block().Instrs {
+				if rc, isCall := ins.(*ssa.Call); isCall {
+					if n, _ := callName(rc.Common()); n == "strings.Builder.Reset" {
+						reset = true
+					}
+				}
+			}
+			if lenGuard && rejected && reset {
+				okFlush = true
+			}
+		} else if lenGuard {
+			okLast = true
+		}
+	}
+	c.Check(okFlush, "R12.7", "splitFunc:delimiter-flushes-chunk", pos, "a delimiter ends a non-empty chunk and starts a new one", "a delimiting rune does not flush the non-empty current chunk (and reset it)")
+	c.Check(okLast, "R12.7", "splitFunc:last-chunk-flushed", pos, "the chunk open at the end of the input is delivered", "the last chunk of the input is not delivered")
+}
+
+func showTrace(t string) string {
+	if t == "" {
+		return "(empty)"
+	}
+	return "[" + strings.TrimSpace(t) + "]"
+}
+
+// ---- R12.8: tokenize ----
+
+func checkTokenize(c *Ctx) {
+	w := c.W
+	c.Doc("R12.8", "query.tokenize: fields are split on white space, each field on ':' only (the separator closure is tabulated), both quote-aware; every chunk has its enclosing quotes removed in place and an empty chunk is an error; 1/2/3 chunks give a search/qualifier:value/qualifier:sub:value token built from the chunks in order, any other count is an error; the token constructors store each argument in the field of its name with the kind of their name")
+	tk := w.Func("query", "tokenize")
+	if tk == nil {
+		c.Undecided("R12.8", "anchor:query.tokenize", "query", "not found")
+		return
+	}
+	c.seeFn(funcName(tk))
+	pos := w.FnPos(tk)
+	var split1, split2 *ssa.Call
+	for _, cl := range CallsNamed(tk, "query.splitFunc") {
+		cv, _ := cl.Instr.(*ssa.Call)
+		if cv == nil {
+			continue
+		}
+		if _, isParam := cv.Common().Args[0].(*ssa.Parameter); isParam {
+			split1 = cv
+		} else {
+			split2 = cv
+		}
+	}
+	if split1 == nil || split2 == nil {
+		c.Violate("R12.8", "tokenize:two-level-split", pos, "the query is not split into fields and each field into chunks with the quote-aware splitter")
+		return
+	}
+	okSpace := false
+	if f, isFn := split1.Common().Args[1].(*ssa.Function); isFn && f.Pkg != nil && f.Pkg.Pkg.Path() == "unicode" && f.Name() == "IsSpace" {
+		okSpace = true
+	}
+	c.Check(okSpace, "R12.8", "tokenize:fields-on-white-space", w.InstrPos(split1), "fields are separated by unicode.IsSpace", "fields are not split on white space")
+	// second separator: ':' only
+	okColon, whyColon := false, "the chunk separator is not a function that can be tabulated"
+	if sep := closureFn(split2.Common().Args[1]); sep != nil && len(sep.FreeVars) == 0 {
+		okColon = true
+		for _, r := range append(comparedConsts(sep, 0), ':', ' ', '"', '\'', 0, -2) {
+			env := &fenv{cells: map[int]*fval{}}
+			out, err := env.run(sep, []fval{{k: fInt, i: r}}, 0)
+			c.Sites++
+			if err != nil || len(out) != 1 {
+				okColon, whyColon = false, fmt.Sprintf("the chunk separator cannot be tabulated: %v", err)
+				break
+			}
+			if out[0].b != (r == ':') {
+				okColon, whyColon = false, fmt.Sprintf("the chunk separator answers %v for rune %q; only ':' separates qualifier and value", out[0].b, rune(r))
+				break
+			}
+		}
+	}
+	c.Check(okColon, "R12.8", "tokenize:chunks-on-colon", w.InstrPos(split2), "chunks are separated by ':' and nothing else", whyColon)
+	// the field split is an element of the first split's result
+	okField := false
+	if ld, isLd := split2.Common().Args[0].(*ssa.UnOp); isLd {
+		if ia, isIA := ld.X.(*ssa.IndexAddr); isIA {
+			for _, o := range origins(ia.X) {
+				if o.Val == ssa.Value(split1) && o.Idx == 0 {
+					okField = true
+				}
+			}
+		}
+	}
+	c.Check(okField, "R12.8", "tokenize:every-field", w.InstrPos(split2), "each field of the first split is split into chunks", "what is split into chunks is not a field of the query")
+	var chunks ssa.Value
+	for _, v := range resultValues(split2, 0) {
+		chunks = v
+	}
+	// removeQuote in place
+	okUnq := false
+	for _, cl := range CallsNamed(tk, "query.removeQuote") {
+		cv, _ := cl.Instr.(*ssa.Call)
+		ld, isLd := cv.Common().Args[0].(*ssa.UnOp)
+		if !isLd {
+			continue
+		}
+		src, isIA := ld.X.(*ssa.IndexAddr)
+		if !isIA || src.X != chunks {
+			continue
+		}
+		for _, r := range *cv.Referrers() {
+			if st, isSt := r.(*ssa.Store); isSt && st.Val == ssa.Value(cv) {
+				if dst, isDst := st.Addr.(*ssa.IndexAddr); isDst && dst.X == chunks && dst.Index == src.Index {
+					okUnq = true
+				}
+			}
+		}
+	}
+	c.Check(okUnq, "R12.8", "tokenize:quotes-removed-in-place", pos, "chunks[i] = removeQuote(chunks[i]) for every chunk", "the enclosing quotes of a chunk are not removed in place (a quoted value keeps its quotes or lands in another position)")
+	// constructors by arity
+	want := map[string]int{"query.newTokenSearch": 1, "query.newTokenKV": 2, "query.newTokenKVV": 3}
+	seenCtor := map[string]bool{}
+	var lastTest *ssa.If
+	for _, cl := range Calls(tk) {
+		n, isCtor := want[cl.Name]
+		if !isCtor {
+			continue
+		}
+		c.Sites++
+		seenCtor[cl.Name] = true
+		okArity, okArgs := false, true
+		for _, cc := range controlConds(cl.Block(), nil) {
+			bo, isBo := cc.If.Cond.(*ssa.BinOp)
+			if !isBo || bo.Op != token.EQL || cc.Edge != 0 {
+				continue
+			}
+			lc, isCall := bo.X.(*ssa.Call)
+			k, isK := constInt(bo.Y)
+			if isCall && isK && len(lc.Common().Args) == 1 && lc.Common().Args[0] == chunks && int(k) == n {
+				if bi, isB := lc.Common().Value.(*ssa.Builtin); isB && bi.Name() == "len" {
+					okArity = true
+					if n == 3 {
+						lastTest = cc.If
+					}
+				}
+			}
+		}
+		args := cl.Args()
+		if len(args) != n {
+			okArgs = false
+		}
+		for i, a := range args {
+			ld, isLd := a.(*ssa.UnOp)
+			if !isLd {
+				okArgs = false
+				continue
+			}
+			ia, isIA := ld.X.(*ssa.IndexAddr)
+			k, isK := int64(0), false
+			if isIA {
+				k, isK = constInt(ia.Index)
+			}
+			if !isIA || ia.X != chunks || !isK || int(k) != i {
+				okArgs = false
+			}
+		}
+		short := strings.TrimPrefix(cl.Name, "query.")
+		c.Check(okArity, "R12.8", "tokenize:"+short+":arity", w.InstrPos(cl.Instr), fmt.Sprintf("built for exactly %d chunk(s)", n), fmt.Sprintf("%s is not built exactly when the field has %d chunk(s)", short, n))
+		c.Check(okArgs, "R12.8", "tokenize:"+short+":chunks-in-order", w.InstrPos(cl.Instr), "arguments are the chunks in order", short+" does not receive the chunks of the field in order")
+	}
+	for name := range want {
+		if !seenCtor[name] {
+			c.Violate("R12.8", "tokenize:"+strings.TrimPrefix(name, "query.")+":arity", pos, "no token of this kind is produced any more")
+		}
+	}
+	c.Check(lastTest != nil && strictlyFails(lastTest.Block().Succs[1], defaultFail), "R12.8", "tokenize:too-many-separators-refused", pos, "any other chunk count is an error", "a field with more than 3 (or 0) chunks is not refused")
+	// empty chunk refused
+	okEmpty := false
+	for _, g := range cmpGuards(tk, nil) {
+		lc, isCall := g.X.(*ssa.Call)
+		k, isK := constInt(g.Y)
+		if !isCall || !isK || k != 0 || g.Op != token.EQL {
+			continue
+		}
+		if bi, isB := lc.Common().Value.(*ssa.Builtin); isB && bi.Name() == "len" {
+			if ld, isLd := lc.Common().Args[0].(*ssa.UnOp); isLd {
+				if ia, isIA := ld.X.(*ssa.IndexAddr); isIA && ia.X == chunks {
+					okEmpty = true
+				}
+			}
+		}
+	}
+	c.Check(okEmpty, "R12.8", "tokenize:empty-chunk-refused", pos, "an empty chunk is an error", "an empty qualifier or value is not refused")
+	// removeQuote: strips first and last rune iff they are the same quote; otherwise the chunk is returned as is
+	if rq := w.Func("query", "removeQuote"); rq != nil {
+		c.seeFn(funcName(rq))
+		okStrip, okElse := false, false
+		isLenMinus1 := func(v ssa.Value, of ssa.Value) bool {
+			bo, isBo := v.(*ssa.BinOp)
+			if !isBo || bo.Op != token.SUB {
+				return false
+			}
+			k, isK := constInt(bo.Y)
+			lc, isCall := bo.X.(*ssa.Call)
+			if !isK || k != 1 || !isCall || len(lc.Common().Args) != 1 || lc.Common().Args[0] != of {
+				return false
+			}
+			bi, isB := lc.Common().Value.(*ssa.Builtin)
+			return isB && bi.Name() == "len"
+		}
+		elemAt := func(v ssa.Value) (ssa.Value, ssa.Value) { // (slice, index)
+			if ld, isLd := v.(*ssa.UnOp); isLd {
+				if ia, isIA := ld.X.(*ssa.IndexAddr); isIA {
+					return ia.X, ia.Index
+				}
+			}
+			return nil, nil
+		}
+		for _, r := range Returns(rq) {
+			cv, isConv := r.Results[0].(*ssa.Convert)
+			if !isConv {
+				if r.Results[0] == ssa.Value(rq.Params[0]) {
+					okElse = true
+				}
+				continue
+			}
+			sl, isSl := cv.X.(*ssa.Slice)
+			if !isSl {
+				continue
+			}
+			runes := sl.X
+			lo, isLo := constInt(sl.Low)
+			if !isLo || lo != 1 || !isLenMinus1(sl.High, runes) {
+				continue
+			}
+			sameEnds, quote, long := false, false, false
+			for _, cc := range controlConds(r.Block(), nil) {
+				switch cond := cc.If.Cond.(type) {
+				case *ssa.BinOp:
+					if cond.Op == token.EQL && cc.Edge == 0 {
+						s1, i1 := elemAt(cond.X)
+						s2, i2 := elemAt(cond.Y)
+						if s1 == runes && s2 == runes && i1 != nil && i2 != nil {
+							k1, isK1 := constInt(i1)
+							k2, isK2 := constInt(i2)
+							if (isK1 && k1 == 0 && isLenMinus1(i2, runes)) || (isK2 && k2 == 0 && isLenMinus1(i1, runes)) {
+								sameEnds = true
+							}
+						}
+					}
+					if cond.Op == token.GEQ && cc.Edge == 0 {
+						if k, isK := constInt(cond.Y); isK && k == 2 {
+							long = true
+						}
+					}
+				case *ssa.Call:
+					if n, _ := callName(cond.Common()); n == "query.isQuote" && cc.Edge == 0 {
+						if s1, i1 := elemAt(cond.Common().Args[0]); s1 == runes && i1 != nil {
+							quote = true
+						}
+					}
+				}
+			}
+			if sameEnds && quote && long {
+				okStrip = true
+			}
+		}
+		c.Check(okStrip && okElse, "R12.8", "removeQuote:same-quote-both-ends", w.FnPos(rq), "first and last rune are dropped iff they are equal and a quote (length ≥ 2), otherwise the chunk is unchanged", "removeQuote does not strip exactly a pair of identical enclosing quotes")
+		// isQuote tabulated
+		if iq := w.Func("query", "isQuote"); iq != nil {
+			okQ := true
+			for _, r := range append(comparedConsts(iq, 0), '"', '\'', ':', ' ', 0, -2) {
+				env := &fenv{cells: map[int]*fval{}}
+				out, err := env.run(iq, []fval{{k: fInt, i: r}}, 0)
+				if err != nil || len(out) != 1 || out[0].b != (r == '"' || r == '\'') {
+					okQ = false
+				}
+			}
+			c.Check(okQ, "R12.8", "isQuote:double-and-single", w.FnPos(iq), "exactly \" and ' are quotes", "isQuote does not recognise exactly the double and the single quote")
+		}
+	}
+	// constructors
+	p := w.Pkg("query")
+	for name, n := range want {
+		short := strings.TrimPrefix(name, "query.")
+		fn := w.Func("query", short)
+		if fn == nil || p == nil {
+			continue
+		}
+		c.seeFn(funcName(fn))
+		okFields := 0
+		okKind := false
+		kindConst := "tokenKind" + strings.TrimPrefix(short, "newToken")
+		for _, b := range fn.Blocks {
+			for _, ins := range b.Instrs {
+				st, isSt := ins.(*ssa.Store)
+				if !isSt {
+					continue
+				}
+				fa, isFA := st.Addr.(*ssa.FieldAddr)
+				if !isFA {
+					continue
+				}
+				f := fieldName(fa)
+				if pp, isP := st.Val.(*ssa.Parameter); isP && pp.Name() == f {
+					okFields++
+				}
+				if f == "kind" {
+					if k, isK := constInt(st.Val); isK {
+						if kc, isC := p.Types.Scope().Lookup(kindConst).(*types.Const); isC {
+							if kv, exact := constant.Int64Val(kc.Val()); exact && kv == k {
+								okKind = true
+							}
+						}
+					}
+				}
+			}
+		}
+		c.Check(okFields == n && okKind, "R12.8", short+":fields", w.FnPos(fn), fmt.Sprintf("%d argument(s) stored in the field of their name, kind %s", n, kindConst), short+" does not store each argument in the token field of its name with kind "+kindConst)
 	}
 }
